@@ -121,6 +121,9 @@ pub struct Gen {
     pub faults: Vec<String>,
     ext_tag: u32,
     last_ext: Option<PT>,
+    /// a value declared by a `let` whose expression carried an argument-type fault: the analyzer
+    /// still declares it, so the next statement reads it to the left of an extension leaf
+    use_next: Option<(String, PT)>,
     loop_depth: usize,
 }
 
@@ -160,6 +163,7 @@ impl Gen {
             faults: vec![],
             ext_tag: 0,
             last_ext: None,
+            use_next: None,
             loop_depth: 0,
         }
     }
@@ -429,7 +433,9 @@ impl Gen {
 
     fn stmt_let(&mut self, depth: usize) -> Option<St> {
         let t = self.any_ty();
+        let nf = self.faults.len();
         let value = self.expr(&t, depth)?;
+        let arg_fault = self.faults.len() > nf && self.faults[nf..].iter().all(|c| c == "B5-arg-type");
         let name = self.fresh_value_name();
         let mutable = self.rng.chance(1, 2);
         let mut ty = if self.rng.chance(1, 2) { Some(t.clone()) } else { None };
@@ -437,6 +443,11 @@ impl Gen {
             ty = Some(Ty::Prim(self.other_prim(&t)));
             // the analyzer declares nothing
         } else {
+            if arg_fault && self.cfg.ext {
+                if let Ty::Prim(p) = &t {
+                    self.use_next = Some((name.clone(), *p));
+                }
+            }
             self.declare(&name, t, mutable);
         }
         Some(St::Let(LetS {
@@ -730,6 +741,18 @@ impl Gen {
     /// one statement of a block of the given kind (3 = function body)
     fn stmt(&mut self, kind: u8, depth: usize, last: bool, result: &Ty) -> Option<St> {
         let loopish = kind == 1 || kind == 2;
+        if let Some((x, p)) = self.use_next.take() {
+            // `let z = x + ext`: the analysis went on after the argument-type error, `x` is declared
+            self.ext_tag += 1;
+            self.last_ext = Some(p);
+            let value = Ex {
+                v: EV::Var(x),
+                rest: Some((Op::Plus, Box::new(Ex::single(EV::Ext(self.ext_tag, p))))),
+            };
+            let name = self.fresh_value_name();
+            self.declare(&name, Ty::Prim(p), false);
+            return Some(St::Let(LetS { name, mutable: false, ty: None, value }));
+        }
         // loop-flavoured bodies end in break / continue often enough for combinations (a loop that ends
         // in `continue` around an `if` that ends in `break`, …) to occur in every run
         if loopish && last && self.rng.chance(if kind == 1 { 2 } else { 1 }, 5) {
